@@ -10,6 +10,25 @@ LEVEL_NOTE = ('decides (part): no unwrap of an empty block maximum; candidate bo
 IDS = {'unwrap': 'R2.1', 'bound': 'R2.2', 'formula': 'R2.3', 'cmp': 'R2.4', 'block': 'R2.5', 'once': 'R2.6', 'prefilter': 'R2.4', 'down': 'R2.4'}
 
 
+def prefilter_conservative(db, ctx):
+    """The scanner only never loses a hit if the 8-bit pre-filter over-estimates: re-evaluate the C08 rules as part of this property."""
+    from . import C08
+    ctx.rule('R2.7', 'pre-filter is conservative (C08 rules R8.1-R8.3 re-evaluated): cells rounded up, threshold rounded down, every 8-bit accumulation saturates')
+    before, vb = len(ctx.obligations), len(ctx.violations)
+    C08.r81(db, ctx)
+    C08.r82(db, ctx)
+    C08.r83(db, ctx)
+    for o in ctx.obligations[before:]:
+        o['rule'] = 'R2.7'
+    for v in ctx.violations[vb:]:
+        v['key'] = v['key'].replace(v['rule'], 'R2.7', 1)
+        v['rule'] = 'R2.7'
+    for k in ('R8.1', 'R8.2', 'R8.3', 'R8.3i'):
+        ctx.rules_text.pop(k, None)
+        if k in ctx.floors:
+            ctx.floors['R2.7-' + k] = ctx.floors.pop(k)
+
+
 def run(db, ctx):
     ctx.rule('R2.1', 'the block maximum (None on an empty block) is never unwrapped unguarded')
     ctx.rule('R2.2', 'a candidate position is compared with the number of valid positions before it is rescored / reported')
@@ -64,3 +83,4 @@ def run(db, ctx):
         ctx.ok('R2.6', f, 'push only inside the loop guarded by hits.is_empty(); the only consumer is the final pop()')
     else:
         ctx.fail('R2.6', f, 'hit buffer discipline', f'loop-guard-on-empty={ok6}, consumers of self.hits={[f.callee_short(p[1]) for p in pops]}')
+    prefilter_conservative(db, ctx)
